@@ -1945,6 +1945,10 @@ void Ym2612::update(int32_t *bufL, int32_t *bufR, int length)
 		algo_type |= 8;
 	}
 
+	// The channel updates take the interpolation counter from the state only when they
+	// produce output: without this, a period of silent channels stores an unset value back
+	d->int_cnt = d->state.Inter_Cnt;
+
 	d->Update_Chan((d->state.CHANNEL[0].ALGO + algo_type), &(d->state.CHANNEL[0]), bufL, bufR, length);
 	d->Update_Chan((d->state.CHANNEL[1].ALGO + algo_type), &(d->state.CHANNEL[1]), bufL, bufR, length);
 	d->Update_Chan((d->state.CHANNEL[2].ALGO + algo_type), &(d->state.CHANNEL[2]), bufL, bufR, length);
